@@ -19,9 +19,10 @@ LEAN_MODULE = 'CC.Properties.C02'
 LEVEL = 'proof'
 THEOREMS = [
     'CC.C02_component_eq_spec', 'CC.C02_transform_eq_spec',
-    'CC.C02_exact', 'CC.C02_rms', 'CC.C02_rms_power', 'CC.C02_dc', 'CC.C02_gate_boundary',
+    'CC.C02_exact', 'CC.C02_wrappers_generated', 'CC.C02_rms', 'CC.C02_rms_power', 'CC.C02_dc', 'CC.C02_gate_boundary',
 ]
-OPEN_STATEMENTS = []
+OPEN_STATEMENTS = ['C02_exact states neither existence nor uniqueness of the solution vector: existence is C01_solvable_statement (open in C01), uniqueness CC.C01_unique / C01_matrix_unique (not restated); hypotheses S.check = ok and no self-loop are carried',
+                   'C02_rms and conjunct 2 of C02_dc hold by definition of the hand-written wrappers cxGet / dcGet (linked to the generated formulas by C02_wrappers_generated for cxGet; dcGet by correspondence only); C02_dc conjunct 1 is rfl between two transcriptions of solution.py:37/59']
 ASSUMPTIONS = [
     'np.cos / np.sin / np.sqrt(2) are parameters of the model; the harness passes numpy\'s own values (r2 = np.sqrt(2), r2·r2 = 2 within 1 ulp)',
     'numpy.linalg.solve is a parameter: C02_exact holds for every vector solving the matrix equation; binary64 agrees with field arithmetic within 1e-9 relative on instances with cond(A) < 1e8',
